@@ -116,7 +116,21 @@ def apply (req : Json) : R Reply := do
     Json.arr #[Json.str t, Json.arr (names.flatMap (fun g1 => names.filterMap (fun g2 =>
       let a := applyKern p t g1 g2
       if a.1 == 0 && a.2 == 0 then none else some (Json.arr #[Json.str g1, Json.str g2, ratJ a.1, ratJ a.2])))).toArray])
-  return { model := Json.arr table.toArray, holds := true }
+  -- the hypotheses of the end-to-end theorem, evaluated for every (script, tag, g1, g2): how many triples they cover, and (a
+  -- theorem, so this list is always empty) the triples on which `applyKern` is not the rounded UFO value
+  let scripts := (k.c.glyphScripts.flatMap (·.2)).eraseDups
+  let mut met : Nat := 0
+  let mut bad : List Json := []
+  for s in scripts do
+    for tag in (alookup s k.rc.otTags).getD [] do
+      for g1 in names do
+        for g2 in names do
+          if e2eHyp k.c k.rc k.glyphs k.groups k.kerning k.q k.marks k.ignoreMarks (k.todo.contains "kern") (k.todo.contains "dist") s tag g1 g2 then
+            met := met + 1
+            if applyKern p tag g1 g2 != e2eExpected k.c k.groups k.kerning k.q s g1 g2 then
+              bad := bad ++ [Json.arr #[Json.str s, Json.str tag, Json.str g1, Json.str g2]]
+  return { model := Json.arr table.toArray, holds := true, hyp := Json.bool (met > 0),
+           info := Json.mkObj [("e2e_met", natJ met), ("e2e_bad", Json.arr bad.toArray)] }
 
 def handle (op : String) (req : Json) : R Reply :=
   match op with
